@@ -1,8 +1,248 @@
-(* C18  PDU ring buffers keep PDUs intact and in FIFO order.   (work in progress: witnesses only) *)
-From BT Require Import Base.ListX PduRing.PduRingModel PduRing.PduRingSpec.
+(* C18  PDU ring buffers keep PDUs intact and in FIFO order.
+   Statements only; proofs live in PduRing/PduRingProofs.v.
+
+   cfg = (Size, ovh, lmod): any storage size, any layout overhead (0 = default_pdu_layout,
+   1 = nrf_details::encrypted_pdu_layout; nothing depends on ovh <= 1), lmod = the modulus of the
+   result type of pdu_ring_buffer::pdu_length( const P& ) (0: std::size_t, no truncation;
+   256: std::uint8_t, the code before fix/C18-pdu-length-width). wf c is Size >= 2.
+   Histories are arbitrary lists of operations; the monitor (PduRingSpec.mstep) stops judging a
+   history at the first operation outside the documented preconditions (DESIGN.md 12.1). *)
+From BT Require Import Base.ListX PduRing.PduRingModel PduRing.PduRingSpec PduRing.PduRingProofs.
 From BT Require gen.GenPduRing.
 
-Example C18_empty_witness :
-  monitor true 0 61 0 (run (mkcfg 61 0 256)
-    [Alloc 40; Write 0 [2; 23]%N; Push 0 40; Pop; Alloc 40]) = Some (4, t_alloc_empty).
+(* ---- 1. the monitor accepts every trace of the model -------------------------------------------
+   For every configuration and every operation sequence of any length: no fault inside the
+   discipline (oob_write), alloc_front returns regions inside the storage (oob_write) that overlap
+   no live PDU (overlap) and fails on a non-empty ring only if neither the append nor the wrap
+   region is free (alloc_complete), bytes the user wrote into the allocated region are still there
+   at commit (region_clobbered), next_end returns the oldest live PDU (fifo_order) at its place with
+   the size and bytes of its commit (bytes_intact), more_than_one is exact (more_than_one).
+   The only clause left out is the empty-ring guarantee (strict = false), and pushes whose memory
+   size reaches lmod are outside the discipline (no restriction when lmod = 0). *)
+Theorem C18_monitor_accepts_model :
+  forall (c : cfg) (ops : list op), wf c ->
+    monitor false (lmod c) (Size c) (ovh c) (run c ops) = None.
+Proof. exact monitor_accepts_model. Qed.
+Print Assumptions C18_monitor_accepts_model.
+
+(* ---- 2. memory safety: a history that is inside the discipline to its end never faults ---------
+   (every access of the ring, of the user filling an allocated region and of the user reading a
+   peeked PDU is inside [0,Size); no assert fails) *)
+Theorem C18_no_access_outside_storage :
+  forall (c : cfg) (ops : list op), wf c ->
+    dead (mon_final false (lmod c) (Size c) (ovh c) (minit (Size c)) (run c ops)) = false ->
+    Forall (fun x => snd x <> OFault /\ snd x <> OSkipped) (run c ops).
+Proof. exact no_fault_in_discipline. Qed.
+Print Assumptions C18_no_access_outside_storage.
+
+(* ---- 3. refinement to a FIFO `list (list N)` ----------------------------------------------------
+   Live c s mo: model state s and monitor state mo (not dead) are coupled by the representation
+   invariant (empty / linear / split with wrap point). It holds initially and each operation inside
+   the discipline preserves it, is accepted, does not fault, and changes the abstract queue
+   `contents` exactly as fifo_spec says: push_front appends the committed bytes, pop_end removes
+   the head, everything else leaves it alone. *)
+Theorem C18_invariant_initially : forall c : cfg, wf c -> Live c (init c) (minit (Size c)).
+Proof. exact init_live. Qed.
+Print Assumptions C18_invariant_initially.
+
+Theorem C18_fifo_refinement :
+  forall (c : cfg) (s : state) (mo : mon) (o : op) (v : verdict) (mo' : mon),
+    wf c -> Live c s mo ->
+    mstep false (lmod c) (Size c) (ovh c) mo o (snd (step c s o)) = (v, mo') -> dead mo' = false ->
+    v = Ok /\ snd (step c s o) <> OFault /\ Live c (fst (step c s o)) mo' /\
+    contents mo' = fifo_spec (contents mo) o (snd (step c s o)).
+Proof. exact fifo_refinement. Qed.
+Print Assumptions C18_fifo_refinement.
+
+(* next_end returns the head of the queue: offset, size and bytes of its commit, state unchanged *)
+Theorem C18_peek_returns_oldest :
+  forall (c : cfg) (s : state) (mo : mon), wf c -> Live c s mo ->
+    step c s Peek = (s, match fifo mo with [] => ONone | (po, cc) :: _ => OPeek po (length cc) cc end).
+Proof. exact peek_returns_oldest. Qed.
+Print Assumptions C18_peek_returns_oldest.
+
+(* all live PDUs, not only the oldest, have the bytes of their commit in memory *)
+Theorem C18_live_pdus_intact :
+  forall (c : cfg) (s : state) (mo : mon), Live c s mo ->
+    Forall (fun pc => slice (mem s) (fst pc) (length (snd pc)) = snd pc) (fifo mo).
+Proof. exact live_pdus_intact. Qed.
+Print Assumptions C18_live_pdus_intact.
+
+(* ---- 4. live PDUs never overlap and lie inside the storage ------------------------------------- *)
+Theorem C18_live_pdus_apart :
+  forall (c : cfg) (s : state) (mo : mon), Live c s mo ->
+    all_apart (pd (fifo mo)) /\ Forall (fun p => fst p + snd p <= Size c /\ 3 <= snd p) (pd (fifo mo)).
+Proof. exact live_pdus_apart. Qed.
+Print Assumptions C18_live_pdus_apart.
+
+Theorem C18_alloc_region_free :
+  forall (c : cfg) (s : state) (mo : mon) (n off : nat), Live c s mo -> alloc_front c s n = Some off ->
+    off + n <= Size c /\ forall p, In p (pd (fifo mo)) -> apart (off, n) p.
+Proof. exact alloc_region_free. Qed.
+Print Assumptions C18_alloc_region_free.
+
+(* ---- 5. completeness of alloc_front ------------------------------------------------------------
+   non-empty ring: front_ is the end of the newest and end_ the start of the oldest live PDU, and a
+   failing alloc_front means that neither [front, front+n) nor [0,n) with n < end (one byte gap)
+   is free (linear), resp. that the gap end - front is not larger than n (split). *)
+Theorem C18_alloc_complete_nonempty :
+  forall (c : cfg) (s : state) (mo : mon) (n e0 : nat) (c0 : list N) (t : list (nat * list N)),
+    Live c s mo -> fifo mo = (e0, c0) :: t -> alloc_front c s n = None ->
+    end_ s = e0 /\ front s = live_end (fifo mo) /\ front s <> end_ s /\
+    (end_ s < front s -> Size c - front s < n /\ end_ s <= n) /\
+    (front s < end_ s -> end_ s - front s <= n).
+Proof. exact alloc_complete_nonempty. Qed.
+Print Assumptions C18_alloc_complete_nonempty.
+
+(* EMPTY ring. The full statement (monitor with the clause `alloc_empty`: an empty ring accepts
+   every n <= Size - 1, which is what the header of ring_buffer.hpp promises) is FALSE of the
+   code: after PDUs were committed and freed front_ = end_ = k > 0, and n with Size - k < n,
+   k <= n is refused. KNOWN FINDING C18-empty-ring-refuses-alloc (no safe local fix: an
+   outstanding allocation may point at front_). lm = 256 is the code as it is, lm = 0 the code
+   with the width fix. *)
+Definition C18_alloc_complete_full (lm : nat) : Prop :=
+  forall (c : cfg) (ops : list op), wf c -> lmod c = lm ->
+    monitor true (lmod c) (Size c) (ovh c) (run c ops) = None.
+
+(* witness: ReceiveSize 61, max_rx_size 40, one 25 byte PDU received and freed *)
+Theorem C18_empty_refuted : ~ C18_alloc_complete_full 256.
+Proof.
+  intros H.
+  specialize (H (mkcfg 61 0 256) [Alloc 40; Write 0 [2; 23]%N; Push 0 40; Pop; Alloc 40]
+                ltac:(unfold wf, hdr; simpl; lia) eq_refl).
+  vm_compute in H. discriminate.
+Qed.
+Print Assumptions C18_empty_refuted.
+
+Theorem C18_empty_refuted_after_width_fix : ~ C18_alloc_complete_full 0.
+Proof.
+  intros H.
+  specialize (H (mkcfg 61 0 0) [Alloc 40; Write 0 [2; 23]%N; Push 0 40; Pop; Alloc 40]
+                ltac:(unfold wf, hdr; simpl; lia) eq_refl).
+  vm_compute in H. discriminate.
+Qed.
+Print Assumptions C18_empty_refuted_after_width_fix.
+
+(* what does hold: if no request exceeds half the storage the monitor accepts every trace with the
+   empty-ring clause switched on (the default buffer_sizes<61,61> with max_rx_size 29 + overhead
+   is inside: 2 * 30 <= 61). The bound is sharp: Size = 2n - 1 fails (Example below); missing for
+   the full statement: requests with Size / 2 < n <= Size - 1. *)
+Theorem C18_alloc_complete_partial :
+  forall (c : cfg) (ops : list op), wf c -> alloc_sizes_le (Size c / 2) ops ->
+    monitor true (lmod c) (Size c) (ovh c) (run c ops) = None.
+Proof. exact monitor_strict_accepts_model. Qed.
+Print Assumptions C18_alloc_complete_partial.
+
+Theorem C18_alloc_complete_empty_half :
+  forall (c : cfg) (s : state) (mo : mon) (n : nat),
+    Live c s mo -> fifo mo = [] -> 2 * n <= Size c -> alloc_front c s n <> None.
+Proof. exact alloc_complete_empty_half. Qed.
+Print Assumptions C18_alloc_complete_empty_half.
+
+Example C18_half_bound_is_sharp :   (* Size = 29 = 2 * 15 - 1 *)
+  monitor true 0 29 0 (run (mkcfg 29 0 0) [Alloc 15; Write 0 [1; 13]%N; Push 0 15; Pop; Alloc 15])
+  = Some (4, t_alloc_empty).
+Proof. vm_compute. reflexivity. Qed.
+
+(* ---- 6. PDUs of any size: the 8 bit pdu_length overload ----------------------------------------
+   With lmod = 256 (std::uint8_t pdu_length( const P& ), the code before the fix) theorem 1 only
+   covers pushes of less than 256 bytes in memory. Without that restriction the statement is
+   false: a PDU of 256 bytes (payload 254; 253 with the encrypted layout) is committed with
+   front_ advanced by 0 and is lost; reachable through the ring's public interface for Size >= 256,
+   not through ll_data_pdu_buffer (payload <= 251). Repaired on fix/C18-pdu-length-width (result
+   type std::size_t): for lmod = 0 the statement holds for all sizes. *)
+Definition C18_any_pdu_size_full : Prop :=
+  forall (c : cfg) (ops : list op), wf c ->
+    monitor false 0 (Size c) (ovh c) (run c ops) = None.
+
+Theorem C18_len256_refuted : ~ C18_any_pdu_size_full.
+Proof.
+  intros H.
+  specialize (H (mkcfg 300 0 256) [Alloc 256; Write 0 [1; 254]%N; Push 0 256; Peek]
+                ltac:(unfold wf, hdr; simpl; lia)).
+  vm_compute in H. discriminate.
+Qed.
+Print Assumptions C18_len256_refuted.
+
+Theorem C18_any_pdu_size_when_wide :
+  forall (c : cfg) (ops : list op), wf c -> lmod c = 0 ->
+    monitor false 0 (Size c) (ovh c) (run c ops) = None.
+Proof. exact monitor_accepts_model_wide. Qed.
+Print Assumptions C18_any_pdu_size_when_wide.
+
+(* the code checked by this run has the wide result type (fails on a tree without the fix: the
+   translator then generates push_len_mod = 256) *)
+Example C18_code_has_wide_pdu_length : GenPduRing.push_len_mod = 0.
+Proof. reflexivity. Qed.
+
+(* ---- constants regenerated from the sources on every run ---------------------------------------- *)
+Example C18_constants_are_the_codes :
+  GenPduRing.ll_header_size = hdr /\ GenPduRing.default_header_size = hdr /\ GenPduRing.nrf_header_size = hdr /\
+  GenPduRing.wrap_mark = 0%N /\ GenPduRing.default_overhead = 0 /\ GenPduRing.nrf_overhead = 1 /\
+  GenPduRing.default_body_offset = hdr /\ GenPduRing.nrf_body_offset = hdr + 1.
+Proof. repeat split; reflexivity. Qed.
+
+(* ---- non-vacuity --------------------------------------------------------------------------------
+   wf is satisfiable; a history with an exact fit at the end of the storage, a wrap with the mark
+   written, a pop interleaved between alloc and push and a split ring stays inside the discipline
+   (monitor not dead), is accepted, and ends with two live PDUs in the abstract queue *)
+Example C18_wf_nonvacuous : wf (mkcfg 30 1 0).
+Proof. unfold wf, hdr. simpl. lia. Qed.
+
+Definition C18_sample_history : list op :=
+  [Alloc 12; Write 0 [1; 9; 0; 1; 2; 3; 4; 5; 6; 7; 8; 9]%N; Push 0 12;
+   Alloc 12; Write 12 [2; 9; 0; 17; 18; 19; 20; 21; 22; 23; 24; 25]%N; Push 12 12;
+   Pop; Alloc 11; Write 0 [3; 8; 0; 33; 34; 35; 36; 37; 38; 39; 40]%N; Push 0 11;
+   Peek; More; Alloc 3; Alloc 30; Dump].
+
+Example C18_sample_history_inside_discipline :
+  let c := mkcfg 30 1 0 in
+  let m := mon_final true 0 30 1 (minit 30) (run c C18_sample_history) in
+  monitor true 0 30 1 (run c C18_sample_history) = None /\ dead m = false /\
+  contents m = [[2; 9; 0; 17; 18; 19; 20; 21; 22; 23; 24; 25]; [3; 8; 0; 33; 34; 35; 36; 37; 38; 39; 40]]%N.
+Proof. vm_compute. repeat split; reflexivity. Qed.
+
+(* the monitor is not trivially accepting: one rejected trace per clause *)
+Example C18_monitor_rejects_lost_pdu :
+  monitor false 0 30 0 [(Alloc 5, OAlloc 0 5); (Write 0 [1; 3]%N, OUnit); (Push 0 5, OCommit [1; 3; 170; 170; 170]%N);
+                        (Peek, ONone)] = Some (3, t_fifo).
+Proof. vm_compute. reflexivity. Qed.
+
+Example C18_monitor_rejects_changed_byte :
+  monitor false 0 30 0 [(Alloc 5, OAlloc 0 5); (Write 0 [1; 3; 7; 8; 9]%N, OUnit); (Push 0 5, OCommit [1; 3; 7; 8; 9]%N);
+                        (Peek, OPeek 0 5 [1; 3; 7; 0; 9]%N)] = Some (3, t_bytes).
+Proof. vm_compute. reflexivity. Qed.
+
+Example C18_monitor_rejects_wrong_order :
+  monitor false 0 30 0 [(Alloc 5, OAlloc 0 5); (Write 0 [1; 3; 7; 8; 9]%N, OUnit); (Push 0 5, OCommit [1; 3; 7; 8; 9]%N);
+                        (Alloc 5, OAlloc 5 5); (Write 5 [2; 3; 1; 1; 1]%N, OUnit); (Push 5 5, OCommit [2; 3; 1; 1; 1]%N);
+                        (Peek, OPeek 5 5 [2; 3; 1; 1; 1]%N)] = Some (6, t_fifo).
+Proof. vm_compute. reflexivity. Qed.
+
+Example C18_monitor_rejects_overlap :
+  monitor false 0 30 0 [(Alloc 5, OAlloc 0 5); (Write 0 [1; 3]%N, OUnit); (Push 0 5, OCommit [1; 3; 170; 170; 170]%N);
+                        (Alloc 5, OAlloc 4 5)] = Some (3, t_overlap).
+Proof. vm_compute. reflexivity. Qed.
+
+Example C18_monitor_rejects_region_outside_storage :
+  monitor false 0 30 0 [(Alloc 5, OAlloc 26 5)] = Some (0, t_oob).
+Proof. vm_compute. reflexivity. Qed.
+
+Example C18_monitor_rejects_fault :
+  monitor false 0 30 0 [(Alloc 5, OAlloc 0 5); (Write 0 [1; 3]%N, OFault)] = Some (1, t_oob).
+Proof. vm_compute. reflexivity. Qed.
+
+Example C18_monitor_rejects_refusal_with_room :
+  monitor false 0 30 0 [(Alloc 5, OAlloc 0 5); (Write 0 [1; 3]%N, OUnit); (Push 0 5, OCommit [1; 3; 170; 170; 170]%N);
+                        (Alloc 25, ONone)] = Some (3, t_alloc_complete).
+Proof. vm_compute. reflexivity. Qed.
+
+Example C18_monitor_rejects_clobbered_region :
+  monitor false 0 30 0 [(Alloc 5, OAlloc 0 5); (Write 0 [1; 3; 7]%N, OUnit); (Push 0 5, OCommit [1; 3; 0; 170; 170]%N)]
+  = Some (2, t_region).
+Proof. vm_compute. reflexivity. Qed.
+
+Example C18_monitor_rejects_wrong_more :
+  monitor false 0 30 0 [(Alloc 5, OAlloc 0 5); (Write 0 [1; 3]%N, OUnit); (Push 0 5, OCommit [1; 3; 170; 170; 170]%N);
+                        (More, OBool true)] = Some (3, t_more).
 Proof. vm_compute. reflexivity. Qed.
